@@ -14,6 +14,7 @@ import sys, json, io, os, hashlib, decimal, threading, warnings, subprocess, cop
 import cvss
 from cvss import CVSS2, CVSS3, CVSS4
 from cvss.parser import parse_cvss_from_text
+import cvss.interactive, cvss.cvss_calculator  # noqa - loaded up front: the digest of the library's module globals covers them from the start
 from obs import esc, unesc, observe, json_obs
 
 CLS = {"2": CVSS2, "3": CVSS3, "4": CVSS4}
@@ -62,6 +63,10 @@ def proj(obj):
     return dig(deep(vars(obj))) if obj is not None else "-"
 
 
+OTHER = {"2": "AV:N/AC:L/Au:N/C:P/I:P/A:C", "3": "CVSS:3.1/AV:N/AC:L/PR:N/UI:N/S:U/C:H/I:L/A:N",
+         "4": "CVSS:4.0/AV:N/AC:L/AT:N/PR:N/UI:N/VC:H/VI:L/VA:N/SC:N/SI:N/SA:N"}
+
+
 def accessor(obj, ver, name):
     if name == "scores":
         return [repr(x) for x in obj.scores()]
@@ -81,7 +86,24 @@ def accessor(obj, ver, name):
         d = obj.as_json(sort=(name[5] == "s"), minimal=(name[6] == "m"))
         return [[k, repr(v)] for k, v in d.items()]
     if name == "eq_self":
-        return [obj == obj, obj != obj, obj == copy.copy(obj)]
+        # == and != against every kind of operand, both ways round: itself, a copy, objects of every class of the library (equal
+        # text where that is a vector of the class, and a fixed other vector), instances of trivial subclasses, the classes
+        # themselves, and foreign values
+        res = [obj == obj, obj != obj, obj == copy.copy(obj)]
+        operands = [None, "", obj.vector, 0, 7.5, (1,), [obj.vector], {"vectorString": obj.vector}, object(), decimal.Decimal("7.5"), NotImplemented, Ellipsis]
+        for v_, cls in sorted(CLS.items()):
+            operands.append(cls)
+            sub = type(str("Sub" + v_), (cls,), {})
+            for text in (obj.vector, OTHER[v_]):
+                for k in (cls, sub):
+                    try:
+                        operands.append(k(text))
+                    except Exception:  # noqa - not a vector of that class
+                        pass
+        for o in operands:
+            res += [bool(obj == o), bool(o == obj), bool(obj != o), bool(o != obj)]
+        res.append(sum(1 for o in operands if isinstance(o, tuple(CLS.values())) and o in [obj]))
+        return res
     if name == "hash":
         return hash(obj) == hash(obj.clean_vector())
     if name == "mutate_json":
@@ -121,6 +143,38 @@ def do_step(step, objs):
         if op == "text":
             res = parse_cvss_from_text(unesc(step[1]))
             return "text:%s" % step[1], dig(sorted([type(r).__name__, r.vector, r.clean_vector()] for r in res)), "-", None
+        if op in ("ask", "cli"):
+            # entry points: they own the terminal while they run (their output is theirs), everything else is judged as for any call
+            class _In(object):
+                def __init__(self, lines):
+                    self.lines = list(lines)
+
+                def readline(self, *a):
+                    return (self.lines.pop(0) + "\n") if self.lines else ""
+
+                def isatty(self):
+                    return False
+            saved = sys.stdin, sys.stdout, sys.stderr, sys.argv
+            sink = io.StringIO() if sys.version_info[0] > 2 else io.BytesIO()
+            sys.stdin, sys.stdout, sys.stderr = _In([unesc(a) for a in step[3]]), sink, sink
+            try:
+                try:
+                    if op == "ask":
+                        from cvss.interactive import ask_interactively
+                        res = ask_interactively({"2": 2, "3.0": 3.0, "3.1": 3.1, "4.0": 4.0}[step[1]], step[2], True)
+                    else:
+                        from cvss import cvss_calculator
+                        sys.argv = ["cvss_calculator"] + [unesc(a) for a in step[1]]
+                        try:
+                            cvss_calculator.main()
+                            res = "returned"
+                        except SystemExit as e:
+                            res = "exit:%s" % (e.code,)
+                except EOFError:
+                    res = "EOFError"
+            finally:
+                sys.stdin, sys.stdout, sys.stderr, sys.argv = saved
+            return "%s:%s" % (op, json.dumps(step[1:])), dig(res), "-", None
         if op == "call":
             k, acc = step[1], step[2]
             if k >= len(objs) or objs[k] is None:
